@@ -1043,6 +1043,7 @@ class Interp:
             self.path.side = list(self.dom.side)
             self.path.deltas = list(self.dom.deltas)
             self.path.nonzero = list(self.dom.nonzero)
+            self.path.nonzero_side_index = list(getattr(self.dom, "nonzero_side_index", []))
             self.path.calls = sorted(self.functions_run)
             paths.append(self.path)
             work.extend(self.pending)
